@@ -81,6 +81,8 @@ def sym_cases(quick):
     add('if_then_else_then', 'if_then< %s, %s >::else_then< %s >' % (S0, S1, S2), spec='if_then_else< %s, %s, %s >' % (S0, S1, S2), inc='tao/pegtl/contrib/if_then.hpp')
     add('if_then_elif', 'if_then< %s, %s >::else_if_then< %s, %s >' % (S0, S1, S2, S1),
         spec='if_then_else< %s, %s, if_then_else< %s, %s, failure > >' % (S0, S1, S2, S1), inc='tao/pegtl/contrib/if_then.hpp')
+    add('if_then_elif2', 'if_then< %s, %s >::else_if_then< %s, %s >::else_if_then< %s, %s >::else_then< %s >' % (S0, S1, S1, S2, S2, S0, S1),
+        spec='if_then_else< %s, %s, if_then_else< %s, %s, if_then_else< %s, %s, %s > > >' % (S0, S1, S1, S2, S2, S0, S1), inc='tao/pegtl/contrib/if_then.hpp')
     return c
 
 
